@@ -20,6 +20,11 @@ thread_local! {
 /// thread-local instances created minus dropped in the current execution (maintained by the interpreter)
 pub static TLS_LIVE: std::sync::atomic::AtomicI64 = std::sync::atomic::AtomicI64::new(0);
 
+/// task-owned tokens created minus dropped (see interp::Token)
+pub static TOK_LIVE: std::sync::atomic::AtomicI64 = std::sync::atomic::AtomicI64::new(0);
+/// executions closed so far: a token belongs to the execution in which it was created
+pub static TOK_EPOCH: std::sync::atomic::AtomicU64 = std::sync::atomic::AtomicU64::new(0);
+
 pub fn log(ev: serde_json::Value) {
     CUR.with(|c| c.borrow_mut().push(ev.to_string()));
 }
@@ -35,6 +40,12 @@ pub fn finish_exec(end: serde_json::Value) {
     }
     let mut end = end;
     end["tlslive"] = json!(TLS_LIVE.swap(0, std::sync::atomic::Ordering::SeqCst));
+    let tok = TOK_LIVE.swap(0, std::sync::atomic::Ordering::SeqCst);
+    TOK_EPOCH.fetch_add(1, std::sync::atomic::Ordering::SeqCst);
+    // a failing execution leaks its unfinished tasks by design (ungraceful shutdown): only clean ends are accounted
+    if end["v"] == "ok" || end["v"] == "stopped" {
+        end["toklive"] = json!(tok);
+    }
     log(end);
     // the runtime's own record of this execution (still in place until the next execution starts)
     let sched = shuttle_engine::runtime::execution::CurrentSchedule::get_schedule();
@@ -88,12 +99,20 @@ pub fn open_plain() {
     PLAIN.with(|p| *p.borrow_mut() = true);
 }
 
+fn tok_reset() {
+    TOK_LIVE.store(0, std::sync::atomic::Ordering::SeqCst);
+    TOK_EPOCH.fetch_add(1, std::sync::atomic::Ordering::SeqCst);
+    TLS_LIVE.store(0, std::sync::atomic::Ordering::SeqCst);
+}
+
 pub fn take_plain() -> Vec<String> {
+    tok_reset();
     PLAIN.with(|p| *p.borrow_mut() = false);
     CUR.with(|c| std::mem::take(&mut *c.borrow_mut()))
 }
 
 pub fn reset_log() {
+    tok_reset();
     CUR.with(|c| c.borrow_mut().clear());
     DONE.with(|d| d.borrow_mut().clear());
     DONE_SCHED.with(|d| d.borrow_mut().clear());
